@@ -160,6 +160,7 @@ _NP_FUNCS = {
     "diag": lambda a: np.diag(_arr(a)),
     "swapaxes": lambda a, i, j: np.swapaxes(_arr(a), i, j),
     "cross": lambda a, b: _cross(_arr(a), _arr(b)),
+    "ix_": lambda *a: np.ix_(*[np.asarray(x, dtype=int) for x in a]),
     "sqrt": lambda a: _opaque("sqrt", a),
     "abs": lambda a: _opaque("abs", a),
     "absolute": lambda a: _opaque("abs", a),
@@ -355,7 +356,15 @@ class SymEval:
             return tuple(self._index(e) for e in s.elts)
         v = self.eval(s)
         if isinstance(v, np.ndarray):
-            raise NotSymbolic("fancy index with a symbolic array")
+            if v.dtype == object:
+                try:
+                    v = np.array([int(Sym.const(x).terms.get((), None)) if all(m == () for m in Sym.const(x).terms) else None for x in v.ravel()]).reshape(v.shape)
+                except (TypeError, ValueError):
+                    raise NotSymbolic("fancy index with a symbolic array") from None
+                if v.dtype == object:
+                    raise NotSymbolic("fancy index with a symbolic array")
+            elif v.dtype.kind not in "iub":
+                raise NotSymbolic("fancy index with a non-integer array")
         return v
 
     def e_Call(self, n):
